@@ -56,6 +56,20 @@ CHECKS = {
     'C18': dict(engine='tlc-sismic', ref='6 C18', level='model_checking', technique='TLC model checking of Sismic.tla + crash-point enumeration in the binding: pickle/deepcopy at macro-step boundaries, TLC evaluates the three-way twin relation',
                 text='At macro-step boundaries of every model behaviour the real interpreter is pickled or deep-copied; copy, original '
                      'and an undisturbed run continue in lock step; TLC checks their observations (incl. __old__ verdict inputs, history, delayed events) are equal.'),
+    'C11': dict(engine='tlc-yaml', ref='6 C11', technique='TLC model checking of spec/Yaml.tla (RoundTrip) + TLC evaluation (spec/YamlTrace.tla) of real export/import round trips + twin-run relation for behaviour',
+                text='Import(Export(c)) = c is checked by TLC on the abstract documents of every start chart; the real '
+                     'export_to_yaml/import_from_yaml pair is run on charts with plain, unicode and YAML-significant names and '
+                     'multi-line code in four build variants, field-by-field and == compared by TLC; the re-import is executed in lock step with the original.',
+                note='Trusted: TLC; harness/yaml_check.py rich projection (strings interned). String-level YAML fidelity is exercised, not modelled.'),
+    'C12': dict(engine='tlc-yaml', ref='6 C12', level='model_checking', technique='TLC fault enumeration inside spec/YamlMC.tla (Accepts <=> DocSound) + every faulty document rendered to YAML, imported by the real code, outcome decided by TLC (spec/YamlTrace.tla)',
+                text='Up to 2 (quick) / 3 (thorough) faults of 20 kinds at every position of the export of every start chart; '
+                     'the model importer (schema, DFS, add_state/add_transition guard chains of Model.tla, validate) is checked '
+                     'against the declarative rules, then the real importer against both.',
+                note='Trusted: TLC; harness/yaml_check.py rendering of abstract documents to YAML text. Silently ignored keys are outside the fault space.'),
+    'C16': dict(engine='tlc-model', ref='6 C16', technique='TLC model checking of spec/Model.tla (soundness invariants, failed => unchanged) + every edge replayed on a real Statechart + TLC trace validation (spec/ModelTrace.tla)',
+                text='Every editing call with valid and invalid arguments from every start structure, plus seeded random '
+                     'sessions; TLC decides soundness of the real structure after each call, failed-edit-changes-nothing, and the exact documented effect.',
+                note='Trusted: TLC; harness/model_edit.py projection of a Statechart through its public queries. Transitions identified by (source, target, event).'),
 }
 
 PENDING = {
@@ -91,6 +105,10 @@ def main():
                                                    'will be claimed once its TLA+ check exists')}
           for p in props if p not in CHECKS]
     engines_extra = [
+        {'name': 'tlc-yaml', 'path': 'spec/Yaml.tla, spec/YamlMC.tla, spec/YamlTrace.tla; harness/yaml_check.py',
+         'serves_properties': ['C11', 'C12'], 'kind_free_text': 'TLA+ spec of the YAML importer/exporter on abstract documents; fault enumeration in the model; real importer decided by TLC'},
+        {'name': 'tlc-model', 'path': 'spec/Model.tla, spec/ModelMC.tla, spec/ModelTrace.tla; harness/model_edit.py',
+         'serves_properties': ['C16'], 'kind_free_text': 'TLA+ spec of the structural editing API; edges replayed on a real Statechart; sessions decided by TLC'},
         {'name': 'tlc-clock', 'path': 'spec/Clock.tla, spec/ClockTrace.tla; harness/clock_check.py',
          'serves_properties': ['C14'], 'kind_free_text': 'TLA+ spec of SimulatedClock checked by TLC; edges replayed on the real clock; recorded runs validated by TLC'},
     ]
